@@ -179,7 +179,8 @@ static void explore_write(int doc, int flags, int to_file, int bound)
 		int rc, fd = -1;
 		errno = mc_errno_pre;
 		if (to_file)
-			rc = json_object_to_file_ext("out.json", o, flags);
+			rc = flags == JSON_C_TO_STRING_PLAIN ? json_object_to_file("out.json", o) /* the plain variant is the _ext one with PLAIN */
+			                                     : json_object_to_file_ext("out.json", o, flags);
 		else
 		{
 			fd = vf_fd_new_output();
